@@ -98,7 +98,7 @@ class MapToMolecule(Processor):
         self.node_to_block = {}
         self.node_to_fragment = {}
         self.fragments = []
-        self.multiblock_correspondence = []
+        self.multiblock_correspondence = {}
         self.added_fragment_nodes = []
         self.force_field = force_field
 
@@ -222,7 +222,7 @@ class MapToMolecule(Processor):
             # extract the nodes of this paticular residue and store a
             # dummy correspndance
             correspondence = {node:node for node in new_mol.nodes}
-            self.multiblock_correspondence.append({node:node for node in new_mol.nodes})
+            self.multiblock_correspondence[self.node_to_fragment[start_node]] = correspondence
             residue = _correspondence_to_residue(meta_molecule,
                                                  new_mol,
                                                  correspondence,
@@ -275,7 +275,7 @@ class MapToMolecule(Processor):
             if "from_itp" in meta_molecule.nodes[node] and node not in self.added_fragment_nodes:
                 fragment_nodes = list(self.fragments[self.node_to_fragment[node]])
                 self.added_fragment_nodes += fragment_nodes
-                self.multiblock_correspondence.append(correspondence)
+                self.multiblock_correspondence[self.node_to_fragment[node]] = correspondence
 
         return new_mol
 
